@@ -239,6 +239,25 @@ pub struct Handle {
 
 impl<Ef: LabEffect> Ctx<Ef> {
     fn request(&self, op: Op) -> BoxFuture<'static, u64> {
+        let (site, arg, kind) = (op.site, op.arg, op.kind);
+        let inner = self.request_inner(op);
+        if !crate::ops::FREE_LOG_ON.load(std::sync::atomic::Ordering::Relaxed) {
+            return inner;
+        }
+        // the API sends a request when its future is first polled
+        let mut inner = inner;
+        let mut logged = false;
+        futures::future::poll_fn(move |cx| {
+            if !logged {
+                logged = true;
+                crate::ops::log_request(site, arg, kind);
+            }
+            inner.poll_unpin(cx)
+        })
+        .boxed()
+    }
+
+    fn request_inner(&self, op: Op) -> BoxFuture<'static, u64> {
         match self {
             Ctx::Cmd(c) => c.request_from_shell(op).map(|v| v.0).boxed(),
             Ctx::Legacy { op: c, .. } | Ctx::Mixed { op: c, .. } => c.request_from_shell(op).map(|v| v.0).boxed(),
@@ -246,6 +265,24 @@ impl<Ef: LabEffect> Ctx<Ef> {
     }
 
     fn stream(&self, op: Op) -> BoxStream<'static, u64> {
+        let (site, arg, kind) = (op.site, op.arg, op.kind);
+        let inner = self.stream_inner(op);
+        if !crate::ops::FREE_LOG_ON.load(std::sync::atomic::Ordering::Relaxed) {
+            return inner;
+        }
+        let mut inner = inner;
+        let mut logged = false;
+        futures::stream::poll_fn(move |cx| {
+            if !logged {
+                logged = true;
+                crate::ops::log_request(site, arg, kind);
+            }
+            inner.poll_next_unpin(cx)
+        })
+        .boxed()
+    }
+
+    fn stream_inner(&self, op: Op) -> BoxStream<'static, u64> {
         match self {
             Ctx::Cmd(c) => c.stream_from_shell(op).map(|v| v.0).boxed(),
             Ctx::Legacy { op: c, .. } | Ctx::Mixed { op: c, .. } => c.stream_from_shell(op).map(|v| v.0).boxed(),
@@ -253,6 +290,7 @@ impl<Ef: LabEffect> Ctx<Ef> {
     }
 
     async fn notify(&self, sig: Sig) {
+        crate::ops::log_request(sig.site, 0, KIND_NEVER);
         match self {
             Ctx::Cmd(c) => c.notify_shell(sig),
             Ctx::Legacy { sig: c, .. } | Ctx::Mixed { sig: c, .. } => c.notify_shell(sig).await,
@@ -421,6 +459,9 @@ pub fn run_script_with<Ef: LabEffect>(ctx: Ctx<Ef>, script: Script, tx: Option<T
                 Instr::Yield { n, drop_waker } => YieldN { n, drop_waker }.await,
                 Instr::Hold { counter } => holds.push(HoldGuard::new(counter)),
                 Instr::Abandon { site } => drop(ctx.request(op(site, 0, KIND_ONCE))),
+                Instr::AbortCmd { handle } => {
+                    crate::ops::call_abort(handle);
+                }
                 Instr::JoinAllUnordered { sites } => {
                     let mut fu = FuturesUnordered::new();
                     for s in &sites {
@@ -452,6 +493,17 @@ pub fn start_legacy(cmd: &Cmd, caps: &d::Capabilities) {
         Cmd::And(a, b) => {
             start_legacy(a, caps);
             start_legacy(b, caps);
+        }
+        Cmd::MapEvent(inner, k) => {
+            // a child capability built inside `update` and dropped again once its tasks are
+            // spawned (the composition pattern of the capability API)
+            use crux_core::capability::Capability as _;
+            let k = *k;
+            let child = d::Capabilities {
+                op: caps.op.map_event(move |e: Event| if k == 0 { e } else { e.push_trail(k) }),
+                sig: caps.sig.map_event(move |e: Event| if k == 0 { e } else { e.push_trail(k) }),
+            };
+            start_legacy(inner, &child);
         }
         Cmd::Done => {}
         other => panic!("program not expressible through the legacy API: {other:?}"),
